@@ -151,6 +151,8 @@ func c01(r *core.Run) {
 		c06DefaultGroupOnlyWithoutGroup(r, "F4", ro)
 	}
 	c01GroupArg(r, "F2", a, root)
+	r.Rule("A4", "a work item is handed to one worker (shared with C02.Q3): the service work queue is only ever tail-appended, head-dropped ([1:] of itself, or reset to the empty buffer prefix when exactly one item is queued), initialised and closed; after any other store (a copy back to the start of the buffer that keeps the popped head) the item just popped is still queued, a second worker pops it and runs the group's callbacks while the first is still inside one", 5)
+	c02WorkQueueShape(r, "A4", a, root)
 	c01EnqueueNeverRunsCallback(r, "F1", a)
 }
 
